@@ -66,6 +66,7 @@ func main() {
 		c.decodeSide(c.accepted("evolution", "evomix", "empty", "recursive", "maps", "lists", "scalars", "byvalue", "ids", "random", "defaults", "wide"), n, false)
 	case "C04":
 		c.encodeSide(all, n, true)
+		c.encodeSide(c.accepted("huge"), 1, true)
 		c.bigLenProbe()
 	case "C05":
 		us := c.accepted("evolution", "evomix", "empty", "recursive", "maps", "lists", "scalars", "byvalue", "ids", "random", "nocopy")
@@ -89,6 +90,7 @@ func main() {
 		if *tier == "thorough" {
 			workers = 32
 		}
+		c.errorPathStorm(workers)
 		c.clusterFirstUse(c.h)
 		c.concurrent(all, workers, 60*n)
 		c.bigByValueStorm()
